@@ -115,8 +115,35 @@ def cases(ctx, n, thorough):
             for _ in range(rng.randint(1, 3)):
                 recs.insert(rng.randint(1, len(recs)), ("empty%d" % len(recs), ""))
             api = "file"
-        out.append(Case(recs, type_, threads=rng.choice([1, 4, 16]), fmt="fasta", api=api, evlog=True,
-                        jitter=rng.choice([0, 0, rng.randint(1, 10 ** 6)])))
+        c_ = Case(recs, type_, threads=rng.choice([1, 4, 16]), fmt="fasta", api=api, evlog=True,
+                  jitter=rng.choice([0, 0, rng.randint(1, 10 ** 6)]))
+        if i % 6 == 2 and len(recs) >= 3 and all(q for _, q in recs):
+            # the records come in two or three files, some of them plain, others carrying gap characters from an earlier alignment (a single gapped
+            # row, or an aligned block): gaps of the input are no part of any sub-alignment kalign builds
+            k_ = rng.randint(1, len(recs) - 1)
+            parts_ = [recs[:k_], recs[k_:]]
+            if len(parts_[1]) >= 2 and rng.random() < 0.4:
+                parts_ = [parts_[0], parts_[1][:1], parts_[1][1:]]
+            gapped_ = rng.randrange(len(parts_))
+            files_ = []
+            for pi_, part_ in enumerate(parts_):
+                if pi_ == gapped_:
+                    rows_ = []
+                    for n_, q_ in part_:
+                        cuts_ = sorted(rng.randint(0, len(q_)) for _ in range(rng.randint(1, 3)))
+                        o_, prev_ = [], 0
+                        for c0_ in cuts_:
+                            o_.append(q_[prev_:c0_]); o_.append("-" * rng.randint(1, 4)); prev_ = c0_
+                        o_.append(q_[prev_:])
+                        rows_.append((n_, "".join(o_)))
+                    if rng.random() < 0.5:
+                        W_ = max(len(r_) for _, r_ in rows_)
+                        rows_ = [(n_, r_.ljust(W_, "-")) for n_, r_ in rows_]          # an aligned block
+                    files_.append("".join(">%s\n%s\n" % (n_, r_) for n_, r_ in rows_))
+                else:
+                    files_.append(gen.fasta_text(part_))
+            c_ = Case(recs, type_, threads=c_.threads, fmt="fasta", api="file", evlog=True, infiles=files_, tag="%d files, file %d gapped" % (len(parts_), gapped_ + 1))
+        out.append(c_)
     # >= 100 members of one tight family (end-truncated fragments, so the family's own alignment has gaps) plus one or two unrelated sequences:
     # the bisecting k-means splits off clusters of a single sequence, on either side
     for j in range(12 if thorough else 4):
